@@ -7,6 +7,8 @@
   with or without default), every position of the rewrite inside the text, every
   separator run.  Number conversion (`boost::spirit::qi`) is the parameter `cv`.
 -/
+import OpmVerif.Proofs.DeckRelayout
+import OpmVerif.Proofs.TokCheck
 import OpmVerif.Proofs.Lex
 import OpmVerif.Proofs.LexSafe
 import OpmVerif.Proofs.Tok
@@ -161,16 +163,19 @@ example : (b "2" ≠ []) ∧ (∀ d ∈ b "2", isDigit d = true) ∧ (∀ x ∈ 
 /-- `assemble_linebreak`: while a keyword is being assembled (RawKeyword state `k`, record
 buffer `buf`), a line `a ++ s ++ b` may be written as the two lines `a`, `b` (`s` a
 separator run outside quotes, no terminating slash in `a`, neither part mistaken for the
-next keyword while the keyword could already be complete): the raw keyword that results —
-records as token lists, termination — and the lines left for the next keyword are equal. -/
+next keyword while the keyword could already be complete; `hma`, `hmb`: both are lines of
+text, not the model's end-of-file marker — true of every cleaned line): the raw keyword that
+results — records as token lists, termination — and the lines left for the next keyword are
+equal. -/
 theorem assemble_linebreak (recog : Bytes → Bool) (k : Kw) (hraw : k.raw = false)
     (buf gap a s rest' : Bytes) (rest : List Bytes)
     (hane : a ≠ []) (hbne : rest' ≠ []) (hs : s ≠ []) (hsep : ∀ c ∈ s, isSep c = true)
     (ha : BalancedNoSlash a) (hout : OutsideP (extendBuf buf gap a))
     (hra : (k.canComplete && recog (makeDeckName a)) = false)
-    (hrb : (k.canComplete && recog (makeDeckName rest')) = false) :
+    (hrb : (k.canComplete && recog (makeDeckName rest')) = false)
+    (hma : a ≠ eofMark) (hmb : rest' ≠ eofMark) :
     feedLines recog k buf gap ((a ++ s ++ rest') :: rest) = feedLines recog k buf gap (a :: rest' :: rest) :=
-  OpmVerif.RawKw.assemble_linebreak recog k hraw buf gap a s rest' rest hane hbne hs hsep ha hout hra hrb
+  OpmVerif.RawKw.assemble_linebreak recog k hraw buf gap a s rest' rest hane hbne hs hsep ha hout hra hrb hma hmb
 
 /-- An empty cleaned line — a blank, whitespace-only or comment-only line of the source —
 anywhere inside a keyword (between records, or between the lines of a record outside a
@@ -231,28 +236,29 @@ example : parseItems demoConv demoSchema [b "'W 1'", b "2*5"] =
 
 /-! ### splitting over INCLUDE files -/
 
-/-- `include_splice`: wherever the keyword loop (`parseState`) stands at a keyword boundary —
-any deck parsed so far, any remaining input — the lines `INCLUDE` / `'path' /` are
-equivalent to the cleaned lines of the named file spliced in front of the remaining input.
-So moving whole keywords into an INCLUDE file (and, by iterating, nested includes) does not
-change the Deck. -/
-theorem include_splice (cv : Conv) (tbl : Table) (recog : Bytes → Bool) (files : Bytes → Option Bytes)
+/-- `include_splice` (step form): wherever the keyword loop (`parseState`) stands at a keyword
+boundary — any deck parsed so far, any PATHS aliases, any remaining input — the lines
+`INCLUDE` / `'path' /` are equivalent to the cleaned lines of the named file, followed by the
+end-of-file marker of the model, spliced in front of the remaining input (nested includes by
+iterating).  The whole-text statements are `include_splice_text` and `relayout_deck`. -/
+theorem include_splice (cv : Conv) (tbl : Table) (recog : Bytes → Bool)
+    (files : List (Bytes × Bytes) → Bytes → Option Bytes)
     (htbl : lookup tbl nameINCLUDE = some includeDef)
-    (path content : Bytes) (hfile : files path = some content)
+    (al : List (Bytes × Bytes)) (path content : Bytes) (hfile : files al path = some content)
     (hq : ∀ c ∈ path, c ≠ 39) (hsafe : LineSafe (quoted path))
     (fuel : Nat) (deck : DeckT) (rest : List Bytes) :
-    parseLoop cv tbl recog files (fuel + 1) deck (nameINCLUDE :: recordLine [quoted path] :: rest) =
-      parseLoop cv tbl recog files fuel deck (splitLines (fastClean (content ++ [10])) ++ rest) :=
-  OpmVerif.Deck.include_splice cv tbl recog files htbl path content hfile hq hsafe fuel deck rest
+    parseLoop cv tbl recog files (fuel + 1) al deck (nameINCLUDE :: recordLine [quoted path] :: rest) =
+      parseLoop cv tbl recog files fuel al deck (splitLines (fastClean (content ++ [10])) ++ eofMark :: rest) :=
+  OpmVerif.Deck.include_splice cv tbl recog files htbl al path content hfile hq hsafe fuel deck rest
 
 def demoTable : Table :=
   [(b "INCLUDE", includeDef),
    (b "DIMENS", ⟨.fixed 1, false, none, [[⟨.int, false, none⟩, ⟨.int, false, none⟩, ⟨.int, false, none⟩]], false, false⟩),
    (b "OIL", ⟨.fixed 0, false, none, [], false, false⟩)]
 
-def demoFiles (p : Bytes) : Option Bytes := if p = b "/d/grid.inc" then some (b "DIMENS\n 10 10 3 / -- from the file") else none
+def demoFiles (_ : List (Bytes × Bytes)) (p : Bytes) : Option Bytes := if p = b "/d/grid.inc" then some (b "DIMENS\n 10 10 3 / -- from the file") else none
 
-example : lookup demoTable nameINCLUDE = some includeDef ∧ demoFiles (b "/d/grid.inc") ≠ none ∧
+example : lookup demoTable nameINCLUDE = some includeDef ∧ demoFiles [] (b "/d/grid.inc") ≠ none ∧
     (∀ c ∈ b "/d/grid.inc", c ≠ 39) := by decide +kernel
 
 example : LineSafe (quoted (b "/d/grid.inc")) :=
@@ -326,5 +332,242 @@ example : Relayout demoSchema (b " 'W 1' 2*5 ") (b " 'W 1'\n\t5 5  1* 1*") := by
 example : parseRecord demoConv demoSchema (b " 'W 1' 2*5 ") =
     some [[(.str (b "W 1"), .deck)], [(.int 5, .deck)], [(.int 5, .deck)], [(.int 9, .dflt)],
           [(.str (b "OPEN"), .dflt)], [(.dummy, .empty)], []] := by decide +kernel
+
+
+/-! ### second round: whole texts, arbitrary prefixes, deck-level closure -/
+
+section deck_level
+open OpmVerif.Deck OpmVerif.DeckWrite
+
+/-- more rounds of the keyword loop never change a result (the fuel of the model is not
+what decides). -/
+theorem rounds_irrelevant (cv : Conv) (tbl : Table) (recog : Bytes → Bool)
+    (files : List (Bytes × Bytes) → Bytes → Option Bytes) (f g : Nat) (hfg : f ≤ g)
+    (al : List (Bytes × Bytes)) (deck : DeckT) (lines : List Bytes) (r : DeckT)
+    (h : parseLoop cv tbl recog files f al deck lines = some r) :
+    parseLoop cv tbl recog files g al deck lines = some r :=
+  parseLoop_fuel_le cv tbl recog files f g hfg al deck lines r h
+
+/-- the written text of any conforming deck (every size class, TITLE) is a prefix that ends
+at a keyword boundary: whatever text follows, the keyword loop consumes it as whole keywords.
+Such prefixes compose (`atBoundary_append`) and may be interleaved with blank and comment
+lines (`atBoundary_blank`). -/
+theorem written_prefix_at_boundary (cv : Conv) (tbl : Table) (recog : Bytes → Bool)
+    (files : List (Bytes × Bytes) → Bytes → Option Bytes) (fmt : Bytes → Bytes) (flush : Bool)
+    (al : List (Bytes × Bytes)) (deck : DeckT) (ks : List DK) (h : Conforms cv fmt flush tbl recog deck ks) :
+    AtBoundary cv tbl recog files ks.length al deck (deckText fmt flush ks) al (deck ++ ks.map (DK.result fmt)) :=
+  atBoundary_written cv tbl recog files fmt flush al deck ks h
+
+/-- **`include_splice` as a whole-text statement**: behind ANY prefix text that ends at a
+keyword boundary and in front of ANY text, `INCLUDE` / `'path' /` is the cleaned lines of the
+named file, followed by the end-of-file marker of the model, spliced in front of the lines of
+the text that follows. -/
+theorem include_splice_text (cv : Conv) (tbl : Table) (recog : Bytes → Bool)
+    (files : List (Bytes × Bytes) → Bytes → Option Bytes) (htbl : lookup tbl nameINCLUDE = some includeDef)
+    (n : Nat) (al al' : List (Bytes × Bytes)) (deck deck' : DeckT) (P : Bytes)
+    (hP : AtBoundary cv tbl recog files n al deck P al' deck')
+    (path content : Bytes) (hfile : files al' path = some content)
+    (hq : ∀ c ∈ path, c ≠ 39) (hsafe : LineSafe (quoted path)) (hnl : NoNL (quoted path))
+    (fuel : Nat) (R : Bytes) :
+    parseLoop cv tbl recog files (fuel + 1 + n) al deck (linesOf (P ++ (includeText path ++ R))) =
+      parseLoop cv tbl recog files fuel al' deck' (linesOf (content ++ [10]) ++ eofMark :: linesOf R) :=
+  OpmVerif.Deck.include_splice_text cv tbl recog files htbl n al al' deck deck' P hP path content hfile hq hsafe hnl fuel R
+
+/-- **INCLUDE against the content written in place, any content**: if the text with the
+INCLUDE parses to a deck, the text with the file's content in its place parses to the same
+deck (ENDINC not among the keywords).  The end-of-file marker is transparent
+(`marker_transparent`) except that a record running past the end of the file is an error
+with the INCLUDE (fix d37f2f297) — which is why the converse needs the content to end at a
+keyword boundary (rule `incl` of `RelayoutDeck`). -/
+theorem include_inline (cv : Conv) (tbl : Table) (recog : Bytes → Bool)
+    (files : List (Bytes × Bytes) → Bytes → Option Bytes)
+    (hnoendinc : lookup tbl nameENDINC = none) (htbl : lookup tbl nameINCLUDE = some includeDef)
+    (n : Nat) (al' : List (Bytes × Bytes)) (deck' : DeckT) (P : Bytes)
+    (hP : AtBoundary cv tbl recog files n [] [] P al' deck')
+    (path content : Bytes) (hfile : files al' path = some content)
+    (hq : ∀ c ∈ path, c ≠ 39) (hsafe : LineSafe (quoted path)) (hnl : NoNL (quoted path)) (R : Bytes) (r : DeckT)
+    (h : ParsesText cv tbl recog files (P ++ (includeText path ++ R)) r) :
+    ParsesText cv tbl recog files (P ++ (content ++ 10 :: R)) r :=
+  OpmVerif.Deck.include_inline cv tbl recog files hnoendinc htbl n al' deck' P hP path content hfile hq hsafe hnl R r h
+
+/-- **`relayout_deck`** (partial) — `RelayoutDeck` is the closure (reflexive, symmetric,
+transitive, in any context) of the deck-level rewrites:
+`line`   a line replaced by one with the same cleaned content (comments, outer blanks/tabs,
+         blank ↔ comment-only line; anywhere, also inside records);
+`blank`  a blank or comment line inserted at a keyword boundary;
+`kwname` the keyword line in another case / with text behind the name;
+`record` inside a keyword (any size class, behind any number of earlier records) the text of
+         one record replaced by any other text that is one record whose tokens parse to the
+         same items under the schema of that position: separator runs, text after the slash
+         (`oneRec_line`), line breaks at safe points (`oneRec_linebreak`, the writer's split
+         `oneRec_written`), star contraction/expansion and early record end (the token-level
+         equivalence comes from `relayout_compose` / `scan_star_expand` /
+         `scan_trailing_default`); the keyword assembly behind the record is unaffected
+         (bisimulation `feedLines_setRecs`);
+`incl`   a run of whole keywords moved into an INCLUDE file.
+Every derivation leaves what `Parser::parseString` returns unchanged: the same Deck, or no
+Deck on either side.
+
+Full shape, not proved: rule `record` for double-record keywords and for the line of TITLE
+(and SKIP blocks inside records are not in the model). -/
+theorem relayout_deck_partial (cv : Conv) (tbl : Table) (recog : Bytes → Bool)
+    (files : List (Bytes × Bytes) → Bytes → Option Bytes) {t u : Bytes}
+    (h : RelayoutDeck cv tbl recog files t u) (r : DeckT) :
+    ParsesText cv tbl recog files t r ↔ ParsesText cv tbl recog files u r :=
+  OpmVerif.Deck.relayout_deck_partial cv tbl recog files h r
+
+/-! non-vacuity: a derivation with all four rules on a small deck -/
+
+def oilKw : DK := .kw ⟨b "OIL", false, false, []⟩
+
+private theorem oil_conforms (deck : DeckT) : Conforms demoConv idFmt true demoTable (fun _ => false) deck [oilKw] := by
+  refine ⟨?_, trivial⟩
+  refine ⟨⟨⟨.fixed 0, false, none, [], false, false⟩, _, ?_, rfl, rfl, rfl, Or.inl ⟨rfl, rfl, rfl⟩, ?_⟩⟩
+  · exact ⟨by decide +kernel, by decide +kernel, by decide +kernel, by decide +kernel, by decide +kernel,
+      by decide +kernel, by decide +kernel, by decide +kernel, by decide +kernel, by decide +kernel,
+      by decide +kernel, by decide +kernel, by decide +kernel, by decide +kernel⟩
+  · intro j r hj
+    simp [oilKw] at hj
+
+example : deckText idFmt true [oilKw] = b "OIL\n" := by decide +kernel
+
+def incFiles (_ : List (Bytes × Bytes)) (p : Bytes) : Option Bytes := if p = b "/d/oil.inc" then some (b "OIL") else none
+
+/-- `OIL\nOIL\nOIL\n` ~ `OIL -- first\n  \t\noil  again\nINCLUDE\n '/d/oil.inc' /\n`: the last keyword
+moved into a file (`incl`, backwards), a whitespace-only line at a keyword boundary (`blank`), keyword
+case and trailing text (`kwname`), a comment (`line`) — composed by `trans`. -/
+example : RelayoutDeck demoConv demoTable (fun _ => false) incFiles
+    (b "OIL\nOIL\nOIL\n") (b "OIL -- first\n  \t\noil  again\nINCLUDE\n '/d/oil.inc' /\n") := by
+  have hB1 : AtBoundary demoConv demoTable (fun _ => false) incFiles 1 [] [] (b "OIL\n") [] [⟨b "OIL", []⟩] := by
+    have := atBoundary_written demoConv demoTable (fun _ => false) incFiles idFmt true [] [] [oilKw] (oil_conforms [])
+    have e : deckText idFmt true [oilKw] = b "OIL\n" := by decide +kernel
+    rw [e] at this
+    exact this
+  have hB2 : AtBoundary demoConv demoTable (fun _ => false) incFiles 1 [] [⟨b "OIL", []⟩] (b "OIL\n") []
+      [⟨b "OIL", []⟩, ⟨b "OIL", []⟩] := by
+    have := atBoundary_written demoConv demoTable (fun _ => false) incFiles idFmt true [] [⟨b "OIL", []⟩] [oilKw] (oil_conforms _)
+    have e : deckText idFmt true [oilKw] = b "OIL\n" := by decide +kernel
+    rw [e] at this
+    exact this
+  have hB12 : AtBoundary demoConv demoTable (fun _ => false) incFiles (1 + 1) [] [] (b "OIL\n" ++ b "OIL\n") []
+      [⟨b "OIL", []⟩, ⟨b "OIL", []⟩] :=
+    atBoundary_append demoConv demoTable (fun _ => false) incFiles hB1 hB2
+  have hB1b : AtBoundary demoConv demoTable (fun _ => false) incFiles (1 + 1) [] [] (b "OIL\n" ++ (b "  \t" ++ [10])) []
+      [⟨b "OIL", []⟩] :=
+    atBoundary_append demoConv demoTable (fun _ => false) incFiles hB1
+      (atBoundary_blank demoConv demoTable (fun _ => false) incFiles [] _ (b "  \t") (by decide +kernel) (by decide +kernel))
+  -- the lines of the file are the lines of a written keyword
+  have hfile : AtBoundaryL demoConv demoTable (fun _ => false) incFiles 1 [] [⟨b "OIL", []⟩, ⟨b "OIL", []⟩]
+      (linesOf (b "OIL" ++ [10])) [] ([⟨b "OIL", []⟩, ⟨b "OIL", []⟩] ++ [oilKw].map (DK.result idFmt)) := by
+    have := atBoundaryL_written demoConv demoTable (fun _ => false) incFiles idFmt true [] [⟨b "OIL", []⟩, ⟨b "OIL", []⟩]
+      [oilKw] (oil_conforms _)
+    have e : deckLines idFmt true [oilKw] = linesOf (b "OIL" ++ [10]) := by decide +kernel
+    rw [e] at this
+    exact this
+  have hpath := lineSafe_of_B (t := quoted (b "/d/oil.inc")) (by decide +kernel)
+  -- 1. the third keyword moved into the file
+  have s1 : RelayoutDeck demoConv demoTable (fun _ => false) incFiles
+      ((b "OIL\n" ++ b "OIL\n") ++ (includeText (b "/d/oil.inc") ++ [])) ((b "OIL\n" ++ b "OIL\n") ++ (b "OIL" ++ 10 :: [])) :=
+    RelayoutDeck.incl (1 + 1) 1 [] [] _ _ (b "OIL\n" ++ b "OIL\n") (b "/d/oil.inc") (b "OIL") [] hB12
+      (by decide +kernel) (by decide +kernel) (by decide +kernel) hpath.1 hpath.2 hfile
+  -- 2. a whitespace-only line behind the first keyword
+  have s2 : RelayoutDeck demoConv demoTable (fun _ => false) incFiles
+      (b "OIL\n" ++ b "OIL\nINCLUDE\n '/d/oil.inc' /\n") (b "OIL\n" ++ (b "  \t" ++ 10 :: b "OIL\nINCLUDE\n '/d/oil.inc' /\n")) :=
+    RelayoutDeck.blank 1 [] [⟨b "OIL", []⟩] (b "OIL\n") (b "  \t") _ hB1 (by decide +kernel) (by decide +kernel)
+  -- 3. the second keyword in lower case with text behind it
+  have s3 : RelayoutDeck demoConv demoTable (fun _ => false) incFiles
+      ((b "OIL\n" ++ (b "  \t" ++ [10])) ++ (b "OIL" ++ 10 :: b "INCLUDE\n '/d/oil.inc' /\n"))
+      ((b "OIL\n" ++ (b "  \t" ++ [10])) ++ (b "oil  again" ++ 10 :: b "INCLUDE\n '/d/oil.inc' /\n")) :=
+    RelayoutDeck.kwname (1 + 1) [] [⟨b "OIL", []⟩] _ (b "OIL") (b "oil  again") _ hB1b
+      (by decide +kernel) (by decide +kernel) (by decide +kernel) (by decide +kernel) (by decide +kernel)
+  -- 4. a comment behind the first keyword
+  have s4 : RelayoutDeck demoConv demoTable (fun _ => false) incFiles
+      ([] ++ (b "OIL" ++ 10 :: b "  \t\noil  again\nINCLUDE\n '/d/oil.inc' /\n"))
+      ([] ++ (b "OIL -- first" ++ 10 :: b "  \t\noil  again\nINCLUDE\n '/d/oil.inc' /\n")) :=
+    RelayoutDeck.line [] (b "OIL") (b "OIL -- first") _ (Or.inl rfl) (by decide +kernel) (by decide +kernel) (by decide +kernel)
+  have e0 : b "OIL\nOIL\nOIL\n" = (b "OIL\n" ++ b "OIL\n") ++ (b "OIL" ++ 10 :: []) := by decide +kernel
+  have e1 : (b "OIL\n" ++ b "OIL\n") ++ (includeText (b "/d/oil.inc") ++ []) = b "OIL\n" ++ b "OIL\nINCLUDE\n '/d/oil.inc' /\n" := by
+    decide +kernel
+  have e2 : b "OIL\n" ++ (b "  \t" ++ 10 :: b "OIL\nINCLUDE\n '/d/oil.inc' /\n") =
+      (b "OIL\n" ++ (b "  \t" ++ [10])) ++ (b "OIL" ++ 10 :: b "INCLUDE\n '/d/oil.inc' /\n") := by decide +kernel
+  have e3 : (b "OIL\n" ++ (b "  \t" ++ [10])) ++ (b "oil  again" ++ 10 :: b "INCLUDE\n '/d/oil.inc' /\n") =
+      [] ++ (b "OIL" ++ 10 :: b "  \t\noil  again\nINCLUDE\n '/d/oil.inc' /\n") := by decide +kernel
+  have e4 : [] ++ (b "OIL -- first" ++ 10 :: b "  \t\noil  again\nINCLUDE\n '/d/oil.inc' /\n") =
+      b "OIL -- first\n  \t\noil  again\nINCLUDE\n '/d/oil.inc' /\n" := by decide +kernel
+  rw [e0, ← e4]
+  refine RelayoutDeck.trans (RelayoutDeck.symm s1) ?_
+  rw [e1]
+  refine RelayoutDeck.trans s2 ?_
+  rw [e2]
+  refine RelayoutDeck.trans s3 ?_
+  rw [e3]
+  exact s4
+
+/-- … and both texts indeed parse to the same deck of three `OIL`. -/
+example : parseDeckText demoConv demoTable (fun _ => false) incFiles 20 (b "OIL\nOIL\nOIL\n") =
+    parseDeckText demoConv demoTable (fun _ => false) incFiles 20
+      (b "OIL -- first\n  \t\noil  again\nINCLUDE\n '/d/oil.inc' /\n") ∧
+    (parseDeckText demoConv demoTable (fun _ => false) incFiles 20 (b "OIL\nOIL\nOIL\n")).map (·.map (·.name)) =
+      some [b "OIL", b "OIL", b "OIL"] := by decide +kernel
+
+/-- rule `record`: `DIMENS` behind `OIL`, its record written with a repeat count and text after
+the slash, or written out with commas and a tab and the slash right behind the last item. -/
+example : RelayoutDeck demoConv demoTable (fun _ => false) incFiles
+    (b "OIL\nDIMENS\n 2*10 3 / text\nOIL\n") (b "OIL\nDIMENS\n 10,10\t3/\nOIL\n") := by
+  have hB1 : AtBoundary demoConv demoTable (fun _ => false) incFiles 1 [] [] (b "OIL\n") [] [⟨b "OIL", []⟩] := by
+    have := atBoundary_written demoConv demoTable (fun _ => false) incFiles idFmt true [] [] [oilKw] (oil_conforms [])
+    have e : deckText idFmt true [oilKw] = b "OIL\n" := by decide +kernel
+    rw [e] at this
+    exact this
+  let k0 : Kw := { sizeType := .fixed, raw := false, records := [], minSize := 1, fixedSize := 1,
+                   numTables := 0, curTables := 0, tempFinished := false, finished := false }
+  have hX : OneRec (fun _ => false) k0 (linesOf (b " 2*10 3 / text\n")) [b "2*10", b "3"] := by
+    have e : linesOf (b " 2*10 3 / text\n") = [b "2*10 3 " ++ 47 :: b " text"] := by decide +kernel
+    rw [e]
+    exact oneRec_line (fun _ => false) k0 rfl (b "2*10 3 ") (b " text") _ (by decide +kernel) (by decide +kernel)
+      (by decide +kernel) (by decide +kernel) (by simp)
+  have hX' : OneRec (fun _ => false) k0 (linesOf (b " 10,10\t3/\n")) [b "10", b "10", b "3"] := by
+    have e : linesOf (b " 10,10\t3/\n") = [b "10,10\t3" ++ 47 :: []] := by decide +kernel
+    rw [e]
+    exact oneRec_line (fun _ => false) k0 rfl (b "10,10\t3") [] _ (by decide +kernel) (by decide +kernel)
+      (by decide +kernel) (by decide +kernel) (by simp)
+  have h := RelayoutDeck.record (cv := demoConv) (tbl := demoTable) (recog := fun _ => false) (files := incFiles)
+    1 [] [⟨b "OIL", []⟩] (b "OIL\n") (b "DIMENS") [] (b " 2*10 3 / text\n") (b " 10,10\t3/\n") (b "OIL\n")
+    (b "DIMENS") ⟨.fixed 1, false, none, [[⟨.int, false, none⟩, ⟨.int, false, none⟩, ⟨.int, false, none⟩]], false, false⟩
+    k0 k0 [b "2*10", b "3"] [b "10", b "10", b "3"]
+    hB1 (by decide +kernel) (by decide +kernel) (by decide +kernel) (by decide +kernel) (by decide +kernel)
+    (by decide +kernel) (by decide +kernel) (by decide +kernel) rfl (by decide +kernel) (by decide +kernel) rfl
+    (Or.inl rfl) (by decide +kernel) (by decide +kernel) (by intro rest; rfl) hX hX' (by decide)
+    (by
+      intro items hi
+      have : items = [⟨.int, false, none⟩, ⟨.int, false, none⟩, ⟨.int, false, none⟩] := by
+        have h2 : schemaOf [[(⟨.int, false, none⟩ : Item), ⟨.int, false, none⟩, ⟨.int, false, none⟩]] false 0 =
+            some [⟨.int, false, none⟩, ⟨.int, false, none⟩, ⟨.int, false, none⟩] := by decide +kernel
+        have h3 : (k0.records.length) = 0 := rfl
+        rw [h3, h2] at hi
+        exact (Option.some.inj hi).symm
+      rw [this]
+      decide +kernel)
+  have e1 : b "OIL\nDIMENS\n 2*10 3 / text\nOIL\n" = b "OIL\n" ++ (b "DIMENS" ++ 10 :: ([] ++ (b " 2*10 3 / text\n" ++ b "OIL\n"))) := by
+    decide +kernel
+  have e2 : b "OIL\nDIMENS\n 10,10\t3/\nOIL\n" = b "OIL\n" ++ (b "DIMENS" ++ 10 :: ([] ++ (b " 10,10\t3/\n" ++ b "OIL\n"))) := by
+    decide +kernel
+  rw [e1, e2]
+  exact h
+
+example : parseDeckText demoConv demoTable (fun _ => false) incFiles 20 (b "OIL\nDIMENS\n 2*10 3 / text\nOIL\n") =
+    parseDeckText demoConv demoTable (fun _ => false) incFiles 20 (b "OIL\nDIMENS\n 10,10\t3/\nOIL\n") ∧
+    (parseDeckText demoConv demoTable (fun _ => false) incFiles 20 (b "OIL\nDIMENS\n 2*10 3 / text\nOIL\n")).isSome = true := by
+  decide +kernel
+
+/-- a record that runs past the end of an included file: an error with the INCLUDE (the C++
+throws "Input file ended inside a record." since d37f2f297), a deck with the content in place. -/
+example : parseDeckText demoConv demoTable (fun _ => false)
+      (fun _ p => if p = b "/d/dim.inc" then some (b "DIMENS\n 10 10") else none) 20
+      (b "INCLUDE\n '/d/dim.inc' /\n 3 /\n") = none ∧
+    (parseDeckText demoConv demoTable (fun _ => false) (fun _ _ => none) 20 (b "DIMENS\n 10 10\n 3 /\n")).isSome = true := by
+  decide +kernel
+
+end deck_level
 
 end OpmVerif.Props.C01
